@@ -21,18 +21,25 @@ def has (l : List Rule) (r : Rule) : Bool := l.contains r
 /-! ## priority insertion (`add_policy` when `priority_index >= 0`) -/
 
 /-- ASCII-digit strings, the domain on which `str.isdigit` and `int` agree with `Nat` -/
-def prioOfString (s : String) : Option Nat :=
+def natOfDigits (s : String) : Option Nat :=
   if s.isEmpty then none
   else if s.toList.all (fun c => '0' ≤ c && c ≤ '9') then
     some (s.toList.foldl (fun n c => n * 10 + (c.toNat - '0'.toNat)) 0)
   else none
 
-/-- `int(rule[priority_index])`, `none` when the field is missing or not a digit string (Python raises; the
+/-- decimal integers: ASCII digits with an optional leading `-` - the strings `int` reads as the integer they denote
+    (`sort_policies_by_priority`, repaired, and `add_policy` both key on `int`) -/
+def prioOfString (s : String) : Option Int :=
+  match s.toList with
+  | '-' :: cs => (natOfDigits (String.ofList cs)).map fun n => -(n : Int)
+  | _ => (natOfDigits s).map fun n => (n : Int)
+
+/-- `int(rule[priority_index])`, `none` when the field is missing or not a decimal integer (Python raises; the
     exception is swallowed by `add_policy`, so the rule simply stays where `append` put it) -/
-def prioOf (pi : Nat) (r : Rule) : Option Nat := (r[pi]?).bind prioOfString
+def prioOf (pi : Nat) (r : Rule) : Option Int := (r[pi]?).bind prioOfString
 
 /-- the backward bubble loop on the reversed prefix: `rev` is the list *before* the append, reversed -/
-def bubbleRev (pi : Nat) (pNew : Nat) (r : Rule) : List Rule → List Rule
+def bubbleRev (pi : Nat) (pNew : Int) (r : Rule) : List Rule → List Rule
   | [] => [r]
   | x :: xs =>
     match prioOf pi x with
